@@ -85,6 +85,146 @@ Proof.
   intros H. exists (truthy v), s1. split; auto. destruct (truthy v); auto.
 Qed.
 
+(* pure expressions leave the state alone *)
+Lemma pure_eval_all :
+  (forall e, pure e = true -> forall st v st', eval oracle e st = Done (v, st') -> st' = st) /\
+  (forall es, pure_list es = true -> forall st vs st', eval_list oracle es st = Done (vs, st') -> st' = st) /\
+  (forall t, pure_ctail t = true -> forall vl st v st', eval_ctail oracle vl t st = Done (v, st') -> st' = st).
+Proof.
+  apply expr_mutind.
+  - intros c _ st v st' H. simpl in H. inversion H; auto.
+  - intros x _ st v st' H. simpl in H. destruct (fst st x); inversion H; auto.
+  - intros op e IH P st v st' H. simpl in P, H.
+    destruct (eval oracle e st) as [[v1 s1]| |] eqn:E; simpl in H; try discriminate.
+    destruct (eval_unop op v1); inversion H; subst. eapply IH; eauto.
+  - intros op a IHa b IHb P st v st' H. simpl in P, H. apply andb_prop in P. destruct P as [Pa Pb].
+    destruct (eval oracle a st) as [[va s1]| |] eqn:Ea; simpl in H; try discriminate.
+    destruct (eval oracle b s1) as [[vb s2]| |] eqn:Eb; simpl in H; try discriminate.
+    destruct (eval_binop op va vb); inversion H; subst. rewrite (IHb Pb _ _ _ Eb). eapply IHa; eauto.
+  - intros l IHl rest IHr P st v st' H. simpl in P, H. apply andb_prop in P. destruct P as [Pl Pr].
+    destruct (eval oracle l st) as [[vl s1]| |] eqn:El; simpl in H; try discriminate.
+    rewrite (IHr Pr _ _ _ _ H). eapply IHl; eauto.
+  - intros op a IHa b IHb P st v st' H. simpl in P. apply andb_prop in P. destruct P as [Pa Pb].
+    destruct op; simpl in H; destruct (eval oracle a st) as [[va s1]| |] eqn:Ea; simpl in H; try discriminate;
+      destruct (truthy va); try (inversion H; subst; eapply IHa; eauto; fail);
+      rewrite (IHb Pb _ _ _ H); eapply IHa; eauto.
+  - intros c IHc a IHa b IHb P st v st' H. simpl in P, H.
+    apply andb_prop in P. destruct P as [P Pb]. apply andb_prop in P. destruct P as [Pc Pa].
+    destruct (eval oracle c st) as [[vc s1]| |] eqn:Ec; simpl in H; try discriminate.
+    destruct (truthy vc); [rewrite (IHa Pa _ _ _ H) | rewrite (IHb Pb _ _ _ H)]; eapply IHc; eauto.
+  - intros x e IH P. simpl in P. discriminate.
+  - intros f args IH P. simpl in P. discriminate.
+  - intros es IH P st v st' H. simpl in P, H.
+    destruct (eval_list oracle es st) as [[vs s1]| |] eqn:E; simpl in H; try discriminate.
+    inversion H; subst. eapply IH; eauto.
+  - intros _ st vs st' H. simpl in H. inversion H; auto.
+  - intros e IHe es IHes P st vs st' H. simpl in P, H. apply andb_prop in P. destruct P as [Pe Pes].
+    destruct (eval oracle e st) as [[v1 s1]| |] eqn:E1; simpl in H; try discriminate.
+    destruct (eval_list oracle es s1) as [[v2 s2]| |] eqn:E2; simpl in H; try discriminate.
+    inversion H; subst. rewrite (IHes Pes _ _ _ E2). eapply IHe; eauto.
+  - intros op e IHe P vl st v st' H. simpl in P, H.
+    destruct (eval oracle e st) as [[vr s1]| |] eqn:E; simpl in H; try discriminate.
+    destruct (eval_cmpop op vl vr); inversion H; subst. eapply IHe; eauto.
+  - intros op e IHe rest IHr P vl st v st' H. simpl in P, H. apply andb_prop in P. destruct P as [Pe Pr].
+    destruct (eval oracle e st) as [[vm s1]| |] eqn:E; simpl in H; try discriminate.
+    destruct (eval_cmpop op vl vm) as [[|]|]; try discriminate.
+    + rewrite (IHr Pr _ _ _ _ H). eapply IHe; eauto.
+    + inversion H; subst. eapply IHe; eauto.
+Qed.
+
+Lemma residue_eval : forall m st, eval oracle (fold_neg (residue m)) st = eval oracle m st.
+Proof.
+  intros. assert (R: residue m = m \/ residue m = fold_neg m).
+  { destruct m; auto. destruct op; auto. destruct m; auto. }
+  destruct R as [->| ->]; rewrite ?fold_neg_eval; auto.
+Qed.
+
+Lemma eval_truth_cmp1 : forall l' op r st vl st_l v st',
+  eval oracle l' st = Done (vl, st_l) ->
+  eval_ctail oracle vl (CLast op r) st_l = Done (v, st') ->
+  eval_truth oracle (ECmp l' (CLast op (fold_neg r))) st = Done (truthy v, st').
+Proof.
+  unfold eval_truth. simpl. intros l' op r st vl st_l v st' Hl Hc. rewrite Hl. simpl. rewrite fold_neg_eval.
+  destruct (eval oracle r st_l) as [[vr s1]| |]; simpl in *; try discriminate.
+  destruct (eval_cmpop op vl vr); inversion Hc; subst; reflexivity.
+Qed.
+
+(* BranchBuilder.visit_Compare on a chain, from the second visit of each middle operand on *)
+Definition ctail_spec (t : ctail) : Prop :=
+  forall l' bb tg f g n s',
+  frag_ctail t = true ->
+  build_ctail l' t bb None tg f (mkB g n) = BOk tt s' ->
+  opn g bb -> bb <> exit_idx -> exit_idx < length g -> tg < length g -> f < length g -> tg <> bb -> f <> bb ->
+  exists g', s' = mkB g' n /\ grows g bb g' /\
+    forall G, ext g' G -> forall st vl st_l v st' ret,
+      eval oracle l' st = Done (vl, st_l) ->
+      eval_ctail oracle vl t st_l = Done (v, st') ->
+      steps oracle G (mkConfig bb (slen g bb) st ret) (mkConfig (if truthy v then tg else f) 0 st' ret).
+
+Lemma close_steps : forall g bb p f x G st b st' ret,
+  opn g bb -> bb <> exit_idx -> ext (upd_nth bb (closeF p f x) g) G ->
+  eval_truth oracle p st = Done (b, st') ->
+  steps oracle G (mkConfig bb (slen g bb) st ret) (mkConfig (if b then x else f) 0 st' ret).
+Proof.
+  intros g bb p f x G st b st' ret (Lb&Sb&Pb) Nb E Ev.
+  assert (C: b_succs (blk (upd_nth bb (closeF p f x) g) bb) <> []).
+  { rewrite blk_upd_same by auto. simpl. rewrite Sb. simpl. congruence. }
+  destruct (ext_closed _ _ bb E) as (LG&A1&A2&A3); [rewrite upd_nth_length; auto | auto |].
+  rewrite blk_upd_same in A1, A2, A3 by auto. simpl in A1, A2, A3. rewrite Sb in A3. simpl in A3.
+  apply steps_one. unfold slen. rewrite <- A1. eapply step_branch; eauto.
+Qed.
+
+Lemma ctail_ok : forall t, ctail_spec t.
+Proof.
+  induction t as [op r | op m rest IH]; intros l' bb tg f g n s' FC B O Nb Ne Lt Lf Nt Nf; simpl in FC.
+  - simpl in B. unfold bind in B. rewrite build_lift_free in B by auto. cbn [fst snd] in B.
+    rewrite close_branch_eq in B. inversion B; subst; clear B.
+    eexists; split; [reflexivity|]. split.
+    + apply grows_upd; auto. intros b _. exists []. simpl. rewrite app_nil_r. auto.
+    + intros G E st vl st_l v st' ret Hl Hc.
+      eapply close_steps; eauto. eapply eval_truth_cmp1; eauto.
+  - apply andb_prop in FC. destruct FC as [FC F3]. apply andb_prop in FC. destruct FC as [LF PU].
+    simpl in B. rewrite LF in B.
+    apply bind_inv in B. destruct B as (ex&s1&B1&B). unfold new_bb in B1; simpl in B1; inversion B1; subst; clear B1.
+    unfold bind in B. rewrite build_lift_free in B by auto. cbn [fst snd] in B. rewrite close_branch_eq in B.
+    set (g0 := g ++ [empty_block]) in *.
+    set (p := ECmp l' (CLast op (fold_neg m))) in *.
+    set (g1 := upd_nth bb (closeF p f (length g)) g0) in *.
+    destruct (opn_app g bb empty_block O) as (O0&SL0). fold g0 in O0, SL0.
+    destruct (opn_new g) as (OX0&SLX0). fold g0 in OX0, SLX0.
+    pose proof O as (Lb&_&_).
+    assert (L0: length g0 = S (length g)) by (unfold g0; rewrite app_length; simpl; lia).
+    assert (L1: length g1 = S (length g)) by (unfold g1; rewrite upd_nth_length; auto).
+    assert (G01: grows g0 bb g1).
+    { apply grows_upd; auto. intros b _. exists []. simpl. rewrite app_nil_r. auto. }
+    destruct (opn_after _ _ _ (length g) G01 OX0) as (OX1&SLX1); [lia|].
+    destruct (IH (fold_neg (residue m)) (length g) tg f g1 n s' F3 B OX1) as (g2&->&Gr2&Sem2);
+      try (unfold exit_idx in *; lia).
+    exists g2. split; auto. split.
+    + eapply grows_trans; [| exact Gr2 | right; lia | exact Lb].
+      eapply grows_trans; [apply grows_new | exact G01 | left; reflexivity | exact Lb].
+    + intros G E st vl st_l v st' ret Hl Hc.
+      assert (E1: ext g1 G) by (eapply ext_trans; [eapply grows_ext; eauto | auto]).
+      simpl in Hc. destruct (eval oracle m st_l) as [[vm s1]| |] eqn:Em; simpl in Hc; try discriminate.
+      assert (s1 = st_l) by (eapply (proj1 pure_eval_all); eauto). subst s1.
+      destruct (eval_cmpop op vl vm) as [c|] eqn:Cm; try discriminate.
+      assert (EvP: eval_truth oracle p st = Done (c, st_l)).
+      { unfold p. replace c with (truthy (VBool c)) by reflexivity.
+        eapply eval_truth_cmp1; eauto. simpl. rewrite Em. simpl. rewrite Cm. reflexivity. }
+      pose proof (close_steps g0 bb p f (length g) G st c st_l ret O0 Nb E1 EvP) as T1.
+      rewrite SL0 in T1.
+      destruct c.
+      * eapply steps_trans; [exact T1|].
+        assert (El: eval oracle (fold_neg (residue m)) st_l = Done (vm, st_l)) by (rewrite residue_eval; exact Em).
+        pose proof (Sem2 G E st_l vm st_l v st' ret El Hc) as T2. rewrite SLX1, SLX0 in T2. exact T2.
+      * inversion Hc; subst. simpl. exact T1.
+Qed.
+
+Lemma ctail_extra_eq : forall l' op m rest bb tg f g n,
+  build_ctail l' (CMore op m rest) bb (Some (length g)) tg f (mkB (g ++ [empty_block]) n) =
+  build_ctail l' (CMore op m rest) bb None tg f (mkB g n).
+Proof. intros. simpl. destruct (lift_free m); reflexivity. Qed.
+
 Definition branch_spec (e : expr) : Prop :=
   forall bb t f g n s',
   build_branch e bb t f (mkB g n) = BOk tt s' ->
@@ -130,6 +270,17 @@ Proof.
     apply steps_one. unfold slen. rewrite <- A1. eapply step_jump; eauto.
 Qed.
 
+Lemma eval_truth_cmp_inv : forall e rest st b st',
+  eval_truth oracle (ECmp e rest) st = Done (b, st') ->
+  exists vl st1 v, eval oracle e st = Done (vl, st1) /\
+    eval_ctail oracle vl rest st1 = Done (v, st') /\ b = truthy v.
+Proof.
+  unfold eval_truth. intros e rest st b st' H. simpl in H.
+  destruct (eval oracle e st) as [[vl st1]| |] eqn:El; simpl in H; try discriminate.
+  destruct (eval_ctail oracle vl rest st1) as [[v st2]| |] eqn:Ec; simpl in H; try discriminate.
+  inversion H; subst. exists vl, st1, v. repeat split; auto.
+Qed.
+
 Lemma branch_ok : forall e, frag_cond e = true -> branch_spec e.
 Proof.
   induction e; intros FC; simpl in FC;
@@ -142,7 +293,21 @@ Proof.
     exists g'. split; [reflexivity|]. split; [exact Gr|]. intros G E st b st' ret Ev.
     apply eval_truth_not in Ev. specialize (Sem G E st (negb b) st' ret Ev). destruct b; auto.
   - (* compare *)
-    destruct rest; [apply branch_leaf; [exact FC | reflexivity] | discriminate].
+    destruct rest as [op r | op m rest]; [apply branch_leaf; [exact FC | reflexivity] |].
+    apply andb_prop in FC. destruct FC as [LFl FT].
+    intros bb t f g n s' B O Nb Ne Lt Lf Nt Nf.
+    change (build_branch (ECmp e (CMore op m rest)) bb t f) with
+      (LET extra <- new_bb IN LET r <- build_expr e bb IN
+       build_ctail (fst r) (CMore op m rest) (snd r) (Some extra) t f) in B.
+    apply bind_inv in B. destruct B as (extra&s1&B1&B).
+    unfold new_bb in B1. simpl in B1. inversion B1; subst; clear B1.
+    unfold bind in B. rewrite build_lift_free in B by auto. cbn [fst snd] in B.
+    rewrite ctail_extra_eq in B.
+    destruct (ctail_ok (CMore op m rest) (fold_neg e) bb t f g n s' FT B O Nb Ne Lt Lf Nt Nf) as (g'&->&Gr&Sem).
+    exists g'. split; [reflexivity|]. split; [exact Gr|].
+    intros G E st b st' ret Ev.
+    apply eval_truth_cmp_inv in Ev. destruct Ev as (vl&st1&v&El&Ec&->).
+    eapply Sem; eauto. rewrite fold_neg_eval. exact El.
   - (* boolop *)
     apply andb_prop in FC. destruct FC as [FA FB].
     intros bb t f g n s' B O Nb Ne Lt Lf Nt Nf.
